@@ -5,6 +5,7 @@ import (
 	"fmt"
 	"os"
 	"path/filepath"
+	"strconv"
 	"strings"
 	"sync"
 	"sync/atomic"
@@ -74,6 +75,37 @@ func roundTripValue(g *gen.G, d int, tomlSafe bool) any {
 		l = append(l, roundTripValue(g, d-1, tomlSafe))
 	}
 	return l
+}
+
+// twin returns a copy of v in which every scalar is replaced by its look-alike of another
+// type: a number or boolean by the string that prints the same, such a string by the value.
+func twin(v any) any {
+	switch x := v.(type) {
+	case map[string]any:
+		m := map[string]any{}
+		for k, e := range x {
+			m[k] = twin(e)
+		}
+		return m
+	case []any:
+		l := make([]any, len(x))
+		for i, e := range x {
+			l[i] = twin(e)
+		}
+		return l
+	case string:
+		if n, err := strconv.Atoi(x); err == nil && strconv.Itoa(n) == x {
+			return n
+		}
+		if x == "true" || x == "false" {
+			return x == "true"
+		}
+		return x
+	case nil:
+		return nil
+	default:
+		return fmt.Sprint(x)
+	}
 }
 
 func hasString(v any, s string) bool {
@@ -197,6 +229,7 @@ func C05(r *Run) {
 	g := gen.New(r.Seed*633910099 + 5)
 	g.NullP, g.ReqP = 0, 0
 	n := r.Pick(500, 12000)
+	tg := gen.New(r.Seed*7 + 505)
 	var sessions []Sess
 	var mu sync.Mutex
 	var wg sync.WaitGroup
@@ -236,6 +269,16 @@ func C05(r *Run) {
 				docs[j] = m
 			} else {
 				docs[j] = roundTripValue(g, 2, false)
+			}
+		}
+		// neighbours that PRINT alike but are different documents (8080 / "8080", true / "true"),
+		// and exact copies: every document of a stream is written for itself
+		for j := 1; j < nd; j++ {
+			switch tg.N(8) {
+			case 0:
+				docs[j] = twin(docs[j-1])
+			case 1:
+				docs[j] = gen.Clone(docs[j-1])
 			}
 		}
 		allMaps := true
